@@ -26,5 +26,9 @@ Definition qmin (l : list Q) : Q := fold_right (fun x m => if Qle_bool x m then 
 Definition qmax (l : list Q) : Q := fold_right (fun x m => if Qle_bool m x then x else m) (hd 0 l) l.
 Definition minmax (lo hi x : Q) : Q := (x - lo) / (hi - lo).
 
+(* (x - min) / (max - min) is 0/0 = NaN in floating point for a non-empty table whose values all coincide *)
+Definition degenerate (l : list Q) : bool :=
+  match l with [] => false | _ => Qeq_bool (qmin l) (qmax l) end.
+
 (* a rational in lowest terms: the harness only writes such literals *)
 Definition reduced (x : Q) : Prop := Qred x = x.
